@@ -549,3 +549,31 @@ class Mapping(StageRun):
 
 STAGES = {c.name: c for c in (Mapping, Stats, RefMarkers, RefMarkersTranspose,
                               PMask, PMarkers, Selection, Transpose)}
+
+
+def run_all_canonical(prob_seed, n_leaves, n_proc, fixtures, workdir):
+    """canonical outputs of the listed fixtures (used in-process and, for the
+    PYTHONHASHSEED runs, in a subprocess)"""
+    import random
+    prob = RefProblem(random.Random(prob_seed), n_leaves=n_leaves)
+    out = {}
+    for name in fixtures:
+        with pipeline.quiet():
+            st = STAGES[name](prob, workdir)
+            st.run(n_proc)
+        out[name] = st.canonical()
+        if name == 'selection':
+            out['selection.key_order'] = [
+                k for k in st.result.keys() if k != 'log']
+    return out
+
+
+if __name__ == '__main__':
+    import sys
+    import warnings
+    warnings.simplefilter('ignore')
+    spec = json.loads(sys.argv[1])
+    with pipeline.workdir('ctmverif_hashseed_') as wd:
+        res = run_all_canonical(spec['prob_seed'], spec.get('n_leaves'),
+                                spec['n_proc'], spec['fixtures'], wd)
+    sys.stdout.write('CANONICAL ' + json.dumps(res, sort_keys=True) + '\n')
